@@ -1,32 +1,79 @@
-"""Run registered checks against every seeded change: apply to /repo, run, undo straight afterwards."""
-import json, subprocess, sys, os
+"""Run registered checks against every seeded change.
+
+The change is applied to a scratch worktree of /repo's HEAD, and the checks run from a scratch copy of /verif
+(both outside /repo and /verif, removed afterwards) with BOARIO_REPO pointing at the worktree: neither /repo nor
+/verif (generated Lean files, build output, evidence) is touched, so this can run next to other work.  Results (exit status, VIOLATION line, what the replay says failed) go to
+seeded/RESULTS.json.
+
+    python -m harness.seedtest [names...] [--thorough] [--props C01,C02] [--jobs N]
+"""
+import json, subprocess, sys, os, shutil, tempfile
 from pathlib import Path
+
+VERIF = Path(__file__).resolve().parent.parent
+SEEDED = VERIF / "seeded"
+
 
 def sh(c, cwd=None, timeout=3600, env=None):
     return subprocess.run(c, shell=True, cwd=cwd, capture_output=True, text=True, timeout=timeout, env=env)
 
+
+def describe(replay_path):
+    try:
+        d = json.loads(Path(replay_path).read_text())
+    except Exception:
+        return None
+    if d.get("kind") == "no-failing-input-found":
+        return {"kind": d["kind"], "what": f"{d.get('broken_obligation_kind')}: {str(d.get('broken_obligation'))[:200]}"}
+    v = d.get("violation") or {}
+    return {"kind": d.get("kind"), "what": str(v.get("what") or v.get("phase") or v)[:200],
+            "source": "corpus trigger " + str(d["trigger"]) if d.get("trigger") else
+                      ("scenario seed %s stream %s" % (d["scenario"].get("seed"), d["scenario"].get("stream")) if d.get("scenario") else "special stream"),
+            "n_violations": len(d.get("all") or [])}
+
+
 def main(names, tier="quick", props=None):
-    seeded = Path("/verif/seeded")
     results = {}
-    assert sh("git -C /repo status --porcelain -- boario").stdout.strip() == "", "repo dirty"
-    for d in sorted(seeded.iterdir()):
-        if names and d.name not in names and d.name.split("-")[0] not in names:
-            continue
-        meta = json.loads((d / "meta.json").read_text())
-        pid = meta["property"]
-        r = sh(f"git -C /repo apply {d/'patch.diff'}")
-        if r.returncode != 0:
-            results[d.name] = "patch does not apply"; print(d.name, results[d.name]); continue
-        try:
-            for p in (props or [pid]):
-                r = sh(f"./check {p} {tier}", cwd="/verif")
-                line = [l for l in r.stdout.splitlines() if l.startswith("VIOLATION")]
-                results[f"{d.name}:{p}"] = (r.returncode, line[0][:160] if line else r.stdout.strip().splitlines()[-1][:160])
-                print(d.name, p, results[f"{d.name}:{p}"], flush=True)
-        finally:
-            sh("git -C /repo checkout -- .")
-            sh("git -C /verif checkout -- evidence")      # evidence written against a mutated tree is not evidence
+    wt = Path(tempfile.mkdtemp(prefix="seedwt_", dir="/tmp"))
+    out = Path(tempfile.mkdtemp(prefix="seedout_", dir="/tmp"))
+    vcopy = Path(tempfile.mkdtemp(prefix="seedverif_", dir="/tmp"))
+    shutil.rmtree(wt)
+    shutil.rmtree(vcopy)
+    shutil.copytree(VERIF, vcopy, symlinks=True, ignore=shutil.ignore_patterns(".git", "replays", "__pycache__", "seeded"))
+    r = sh(f"git -C /repo worktree add --detach {wt} HEAD")
+    assert r.returncode == 0, r.stderr
+    env = dict(os.environ, BOARIO_REPO=str(wt), VERIF_OUT=str(out))
+    try:
+        for d in sorted(SEEDED.iterdir()):
+            if not d.is_dir():
+                continue
+            if names and d.name not in names and d.name.split("-")[0] not in names:
+                continue
+            meta = json.loads((d / "meta.json").read_text())
+            pid = meta["property"]
+            r = sh(f"git -C {wt} apply {d/'patch.diff'}")
+            if r.returncode != 0:
+                results[d.name] = {"status": "patch does not apply"}; print(d.name, results[d.name]); continue
+            try:
+                for p in (props or [pid]):
+                    r = sh(f"./check {p} {tier}", cwd=str(vcopy), env=env)
+                    line = [l for l in r.stdout.splitlines() if l.startswith("VIOLATION")]
+                    entry = {"exit": r.returncode, "line": line[0] if line else (r.stdout.strip().splitlines() or [""])[-1][:200]}
+                    if line:
+                        rp = [w for w in line[0].split() if w.startswith("replay=")]
+                        if rp:
+                            entry["caught_by"] = describe(rp[0][7:])
+                        entry["line"] = line[0].replace(str(out), "<out>")
+                    results[f"{d.name}:{p}"] = entry
+                    print(d.name, p, entry["exit"], (entry.get("caught_by") or {}).get("what", entry["line"])[:150], flush=True)
+            finally:
+                sh(f"git -C {wt} checkout -- .")
+    finally:
+        sh(f"git -C /repo worktree remove --force {wt}")
+        shutil.rmtree(out, ignore_errors=True)
+        shutil.rmtree(vcopy, ignore_errors=True)
     return results
+
 
 if __name__ == "__main__":
     args = sys.argv[1:]
@@ -36,4 +83,12 @@ if __name__ == "__main__":
     props = None
     if "--props" in args:
         i = args.index("--props"); props = args[i+1].split(","); del args[i:i+2]
-    main(args, tier, props)
+    save = "--save" in args
+    if save:
+        args.remove("--save")
+    res = main(args, tier, props)
+    if save:
+        path = SEEDED / "RESULTS.json"
+        old = json.loads(path.read_text()) if path.exists() else {}
+        old.update(res)
+        path.write_text(json.dumps(old, indent=1, sort_keys=True))
